@@ -46,6 +46,11 @@ class Gen:
         self.bytes = 0
         self.min_len = self.p.get('min_len', 0)
         self.features = set()
+        fams = self.p.get('fault_fams')
+        self.fault_fam = None
+        if fams:
+            self.fault_fam = self.r.choice(fams)
+            self.features.add('faultfam:' + self.fault_fam)
 
     def newtag(self):
         self.tag += 1
@@ -86,6 +91,8 @@ class Gen:
         shape = r.choices(['few', 'many-small', 'filler', 'cap'], weights=self.p.get('batch_w', [6, 2, 1, 0.3]))[0]
         if shape == 'few':
             lens = [self.pick_len(t) for _ in range(r.randint(1, 6))]
+            if any(l > BLOCK - HDR for l in lens):
+                self.features.add('multi-unit-in-batch')
         elif shape == 'many-small':
             lens = [max(r.choice(SMALL), self.min_len) for _ in range(r.randint(10, 300))]
         elif shape == 'filler':
@@ -101,6 +108,62 @@ class Gen:
         ents = [[self.newtag(), ln] for ln in lens]
         self.emit('batch', t=t, entries=ents)
         self.lay[t].batch(lens); self.pending[t].extend(lens); self.bytes += sum(lens)
+
+    def op_reject(self, t):
+        """operations the API must reject (C04): the model expects an error and no visible entry"""
+        r = self.r
+        k = r.choice(['over-cap', 'over-cap', 'long-topic-batch', 'long-topic-append'] + (['over-10g'] if self.p.get('allow_10g') else []))
+        self.features.add('reject:' + k)
+        if k == 'over-cap':
+            self.emit('batch', t=t, entries=[[self.newtag(), max(r.choice([0, 16, 100]), self.min_len)]], rep=r.choice([2001, 2001, 2500]), expect='err')
+        elif k == 'over-10g':
+            self.emit('batch', t=t, entries=[[self.newtag(), 1 << 30]], rep=11, expect='err')
+        elif k == 'long-topic-batch':
+            self.emit('batch', t='L' * r.choice([230, 300, 600]), entries=[[self.newtag(), 100], [self.newtag(), 5000]], expect='err')
+        else:
+            self.emit('append', t='L' * r.choice([230, 300, 600]), tag=self.newtag(), len=64, expect='err')
+
+    def op_fault(self, t):
+        """an append / batch with an injected I/O failure armed (C04); either outcome is admissible, the reply decides"""
+        r = self.r
+        single = r.random() < 0.35
+        if single:
+            kinds = ['block_write', 'create', 'set_len', 'create_fsync', 'flush']
+            ln = self.pick_len(t)
+            inner = ['append', dict(t=t, tag=self.newtag(), len=ln, expect='any')]
+            lens = [ln]
+        else:
+            kinds = ['cqe-neg', 'cqe-short', 'uring_submit', 'block_write', 'create', 'set_len', 'create_fsync', 'flush']
+            shape = r.choice(['few', 'few-big', 'many'])
+            if shape == 'few':
+                lens = [self.pick_len(t) for _ in range(r.randint(1, 6))]
+            elif shape == 'few-big':
+                lens = [r.randint(2_000_000, 6_000_000) for _ in range(r.randint(2, 5))]
+                self.features.add('fault-batch-multi-block')
+            else:
+                lens = [max(r.choice(SMALL), self.min_len) for _ in range(r.randint(10, 200))]
+            inner = ['batch', dict(t=t, entries=[[self.newtag(), ln] for ln in lens], expect='any')]
+        fam = {'completion': ['cqe-neg', 'cqe-short', 'uring_submit', 'block_write'], 'flush': ['flush'],
+               'alloc': ['create', 'set_len', 'create_fsync']}.get(self.fault_fam)
+        if fam:
+            kinds = [k for k in kinds if k in fam] or kinds
+        k = r.choice(kinds)
+        a = {'kind': k, 'then': inner}
+        n = len(lens)
+        if k == 'cqe-neg':
+            a.update(idx=r.randrange(n), res=r.choice([-5, -28, -9]))
+        elif k == 'cqe-short':
+            a.update(idx=r.randrange(n), res=r.choice([0, 1, 100, 255]))
+        else:
+            a.update(nth=r.choice([0, 0, 0, 1, 2, r.randrange(n)]))
+        self.features.add('fault:' + k)
+        self.emit('fault', **a)
+        # layout prediction is unknown after a possibly failed op: keep it simple, assume success
+        if inner[0] == 'append':
+            self.lay[t].append(lens[0])
+        else:
+            self.lay[t].batch(lens)
+        self.bytes += sum(lens)
 
     def pick_budget(self, t):
         r = self.r
@@ -144,10 +207,17 @@ class Gen:
         r, p = self.r, self.p
         nops = r.randint(*p.get('nops', (40, 120)))
         w_app, w_bat, w_read, w_cnt, w_re, w_rs, w_mark = p.get('op_w', [5, 2, 5, 1, 0, 0, 0])
+        w_rej, w_fault = p.get('reject_w', 0), p.get('fault_w', 0)
         for _ in range(nops):
             t = r.choice(self.topics)
-            k = r.choices(['append', 'batch', 'read', 'count', 'reopen', 'restart', 'marker'],
-                          weights=[w_app, w_bat, w_read, w_cnt, w_re, w_rs, w_mark])[0]
+            k = r.choices(['append', 'batch', 'read', 'count', 'reopen', 'restart', 'marker', 'reject', 'fault'],
+                          weights=[w_app, w_bat, w_read, w_cnt, w_re, w_rs, w_mark, w_rej, w_fault])[0]
+            if k == 'reject':
+                self.op_reject(t); continue
+            if k == 'fault':
+                if self.bytes < p.get('max_bytes', 120_000_000):
+                    self.op_fault(t)
+                continue
             if k == 'append':
                 if self.bytes < p.get('max_bytes', 120_000_000):
                     self.op_append(t)
